@@ -91,7 +91,7 @@ def r05_2(ctx):
     rets = [n for n in ast.walk(f.node) if isinstance(n, ast.Return)]
     kinds: List[Tuple[str, ast.Return]] = []
     for r in sorted(rets, key=lambda n: n.lineno):
-        t = ast.unparse(r.value) if r.value is not None else "None"
+        t = res.text(r.value) if r.value is not None else "None"
         kinds.append(("none" if t == "None" else "user" if t == "self._user_selection" else
                       "defaults" if t == "self._selection_from_defaults()" else "other:" + t, r))
     construct = "Choice._selection/order none(mode) -> user pick -> defaults"
